@@ -29,18 +29,26 @@ HERE = Path(__file__).resolve().parent
 # ---------------------------------------------------------------------------
 # vocabulary: member atoms (argument types) and tested types
 
-ATOMS = ["int", "str", "None", "Lit1", "Lit2", "LitA", "A", "B", "object", "Any"]
-TYPES = ["int", "str", "None", "Lit1", "LitA", "A", "B", "object", "Any"]
+# name-resolution variants (round 4): "Shadow" = module-level class TimeoutError shadowing the builtin, "Nested" =
+# Outer.Inner, "Late" = a class defined after every evaluated function, "Dec" = decimal.Decimal imported under an alias
+ATOMS = ["int", "str", "None", "Lit1", "Lit2", "LitA", "A", "B", "object", "Any", "Shadow", "Nested", "Late", "Dec"]
+TYPES = ["int", "str", "None", "Lit1", "LitA", "A", "B", "object", "Any", "Shadow", "Nested", "Late", "Dec"]
 SRC = {"int": "int", "str": "str", "None": "None", "Lit1": "Literal[1]", "Lit2": "Literal[2]", "LitA": 'Literal["a"]',
-       "A": "A", "B": "B", "object": "object", "Any": "Any"}
+       "A": "A", "B": "B", "object": "object", "Any": "Any",
+       "Shadow": "TimeoutError", "Nested": "Outer.Inner", "Late": "LateT", "Dec": "Dec"}
 LITS = {"Lit1": "1", "Lit2": "2", "LitA": '"a"', "None": "None"}
-RETS = ["R1", "R2", "R3", "R4", "RD"]
+# return types; RN = nested class Outer.RN, RL = defined late, RS = module-level class Warning shadowing the builtin,
+# RI = collections.OrderedDict imported under the alias RI
+RETS = ["R1", "R2", "R3", "R4", "RD", "RN", "RL", "RS", "RI"]
+RET_SRC = {"RN": "Outer.RN", "RS": "Warning"}
 VARS = ["x", "y", "z", "args", "kw"]
 
 PRELUDE = """import sys
 from typing import Any, Union, Optional
 from typing_extensions import reveal_type, Literal
 from pyanalyze.extensions import evaluated, is_provided, is_positional, is_keyword, is_of_type, show_error
+from decimal import Decimal as Dec
+from collections import OrderedDict as RI
 class A: pass
 class B(A): pass
 class R1: pass
@@ -48,6 +56,16 @@ class R2: pass
 class R3: pass
 class R4: pass
 class RD: pass
+class TimeoutError(Exception): pass
+class Warning: pass
+class Outer:
+    class Inner: pass
+    class RN: pass
+"""
+
+# defined AFTER every evaluated function (names are resolved when the call is checked)
+LATE = """class LateT: pass
+class RL: pass
 """
 
 
@@ -124,7 +142,7 @@ def render_block(stmts, ind):
         if s[0] == "pass":
             out.append(pad + "pass")
         elif s[0] == "ret":
-            out.append(pad + f"return {s[1]}")
+            out.append(pad + f"return {RET_SRC.get(s[1], s[1])}")
         elif s[0] == "err":
             out.append(pad + f'show_error("E{s[1]}")')
         else:
@@ -165,6 +183,8 @@ def render_module(cases):
     where = {}
     for ci, case in enumerate(cases):
         lines += render_function(f"f{ci}", case)
+    lines += LATE.splitlines()
+    for ci, case in enumerate(cases):
         for ki, call in enumerate(case["calls"]):
             lines += render_call(f"f{ci}", f"t{ci}_{ki}", call)
             where[(ci, ki)] = len(lines)
@@ -181,16 +201,22 @@ def parse_revealed(desc):
     m = re.match(r"Revealed type is '(.*)'$", desc.strip(), flags=re.S)
     if not m:
         return None
-    s = re.sub(r"<test input [0-9a-f]+>\.", "", m.group(1))
-    parts = sorted(x.strip() for x in s.split(" | "))
     out = []
-    for p in parts:
-        if p in RETS:
-            out.append(p)
+    for p in (x.strip() for x in m.group(1).split(" | ")):
+        mm = re.match(r"<test input [0-9a-f]+>\.(.*)$", p)
+        if mm:
+            # a class of the checked module (a module-level class that shadows a builtin is told apart from the
+            # builtin by this prefix)
+            name = {"Outer.RN": "RN", "Warning": "RS"}.get(mm.group(1), mm.group(1))
+            if name not in RETS:
+                return ["?" + p]
+            out.append(name)
+        elif p in ("collections.OrderedDict", "OrderedDict"):
+            out.append("RI")
         elif p.startswith("Any["):
             out.append("RD")  # no return annotation: the default is Any
         else:
-            return ["?" + s]
+            return ["?" + p]
     return sorted(set(out))
 
 
@@ -262,10 +288,11 @@ def atom_values():
         from pyanalyze.value import AnySource, AnyValue, KnownValue, TypedValue
 
         mod = types.ModuleType("c20_atoms")
-        exec("class A: pass\nclass B(A): pass\n", mod.__dict__)
+        exec(PRELUDE + LATE, mod.__dict__)
         vals = {"int": TypedValue(int), "str": TypedValue(str), "None": KnownValue(None), "Lit1": KnownValue(1), "Lit2": KnownValue(2),
                 "LitA": KnownValue("a"), "A": TypedValue(mod.A), "B": TypedValue(mod.B), "object": TypedValue(object),
-                "Any": AnyValue(AnySource.explicit)}
+                "Any": AnyValue(AnySource.explicit), "Shadow": TypedValue(mod.TimeoutError), "Nested": TypedValue(mod.Outer.Inner),
+                "Late": TypedValue(mod.LateT), "Dec": TypedValue(mod.Dec)}
         _ATOMVALS = (mod, vals)
     return _ATOMVALS
 
@@ -282,6 +309,7 @@ def impl_positions(cases):
     lines = PRELUDE.splitlines()
     for ci, case in enumerate(cases):
         lines += render_function(f"f{ci}", case)
+    lines += LATE.splitlines()
     mod = types.ModuleType(name)
     sys.modules[name] = mod
     try:
@@ -293,7 +321,11 @@ def impl_positions(cases):
         checker = Checker()
         ctx = _CanAssignBasedContext(checker)
         vals = {"int": TypedValue(int), "str": TypedValue(str), "None": KnownValue(None), "Lit1": KnownValue(1), "Lit2": KnownValue(2),
-                "LitA": KnownValue("a"), "A": TypedValue(mod.A), "B": TypedValue(mod.B), "object": TypedValue(object)}
+                "LitA": KnownValue("a"), "A": TypedValue(mod.A), "B": TypedValue(mod.B), "object": TypedValue(object),
+                "Shadow": TypedValue(mod.TimeoutError), "Nested": TypedValue(mod.Outer.Inner), "Late": TypedValue(mod.LateT),
+                "Dec": TypedValue(mod.Dec)}
+        ret_of = {mod.R1: "R1", mod.R2: "R2", mod.R3: "R3", mod.R4: "R4", mod.RD: "RD", mod.Outer.RN: "RN", mod.RL: "RL",
+                  mod.Warning: "RS", mod.RI: "RI"}
         from pyanalyze.value import AnySource, AnyValue
 
         vals["Any"] = AnyValue(AnySource.explicit)
@@ -353,8 +385,8 @@ def impl_positions(cases):
                 msgs = list(ctx.errors)
                 rets = []
                 for sub in flatten_values(value):
-                    if isinstance(sub, TypedValue) and getattr(sub.typ, "__name__", None) in RETS:
-                        rets.append(sub.typ.__name__)
+                    if isinstance(sub, TypedValue) and sub.typ in ret_of:
+                        rets.append(ret_of[sub.typ])
                     elif isinstance(sub, AnyValue):
                         rets.append("RD")
                     else:
@@ -661,7 +693,7 @@ def gen_cond(rng, names, depth, used_vars):
     r = rng.random()
     if r < 0.50:
         v = rng.choice(val_vars)
-        T = rng.choice(["int", "int", "str", "None", "Lit1", "LitA", "A", "B", "object", "Any"])
+        T = rng.choice(["int", "int", "str", "None", "Lit1", "LitA", "A", "B", "object", "Any", "Shadow", "Nested", "Late", "Dec"])
         return ["type", v, T, rng.random() < 0.8]
     if r < 0.70:
         v = rng.choice(val_vars)
@@ -685,7 +717,7 @@ def gen_block(rng, names, depth, counter, tail):
             orelse = gen_block(rng, names, depth - 1, counter, tail) if rng.random() < 0.7 else []
             out.append(["if", gen_cond(rng, names, 2, None), body, orelse])
         elif r < 0.80:
-            out.append(["ret", rng.choice(RETS[:4])])
+            out.append(["ret", rng.choice(RETS[:4] + RETS[:4] + RETS[5:])])
             break
         elif r < 0.95:
             counter[0] += 1
@@ -901,6 +933,21 @@ def any_union_guard(case, call):
     return any((not isinstance(t, str)) and "Any" in t[1] for t in tys)
 
 
+def has_permissive_test(body):
+    """the body contains an is_of_type(..., exclude_any=False) test"""
+
+    def cond(c):
+        if c[0] == "type":
+            return not c[3]
+        if c[0] == "not":
+            return cond(c[1])
+        if c[0] in ("and", "or"):
+            return any(cond(x) for x in c[1])
+        return False
+
+    return any(s_[0] == "if" and (cond(s_[1]) or has_permissive_test(s_[2]) or has_permissive_test(s_[3])) for s_ in body)
+
+
 def load_corpus():
     p = HERE / "corpus" / "C20.json"
     return json.loads(p.read_text()) if p.exists() else []
@@ -1062,7 +1109,10 @@ def run(tier: str, replay: str | None = None):
                     sup = set(dset["rets"]) >= want_r and set(dset["errs"]) >= want_e
                     if sup and any_union_guard(case, call) and m is not None and m == dset:
                         known.append(("C20-any-union-fallthrough", ci, ki))
-                    elif sup and any_union_guard(case, call) and m is None and not model_ok:
+                    elif any_union_guard(case, call) and has_permissive_test(case["body"]) and m is not None and m == dset:
+                        # hypothesis narrow_id fails: the Any member is converted by an exclude_any=False test
+                        known.append(("C20-any-permissive-conversion", ci, ki))
+                    elif any_union_guard(case, call) and m is None and not model_ok:
                         undecided += 1
                     else:
                         failing.append((ci, ki, "union call is not the union of the member calls" + (" (superset)" if sup else " (members' results missing: unsound)"), dset, want))
